@@ -616,6 +616,18 @@ def known_local_int_array(prog):
     return any(f[3] and f[2] == 'none' and f[1] != 'real' for f in decl_map(prog).values())
 
 
+def known_empty_block(prog):
+    """a DO / DO WHILE / IF whose body (or a non-final branch) has no executable statement: pygen prints no `pass`"""
+    exe = lambda ss: any(h(s) != 'nop' for s in ss)
+    for s in all_stmts(unit_of(prog)[4]):
+        k = h(s)
+        if k == 'do' and not exe(s[5]) or k == 'while' and not exe(s[2]):
+            return True
+        if k == 'if' and (not exe(s[2]) or (s[3] and not exe(s[3]))):
+            return True
+    return False
+
+
 def known_long_line(prog):
     """a statement whose generated Python line may exceed pygen's line width of 300 (the continuation it inserts is not
     valid Python)"""
@@ -632,6 +644,7 @@ PROG_CLASSES = [
     ('py-negative-int-power', known_neg_int_pow),
     ('py-local-int-array', known_local_int_array),
     ('py-long-line', known_long_line),
+    ('py-empty-block', known_empty_block),
 ]
 
 
@@ -713,7 +726,7 @@ def to_exact(v):
     raise TypeError(f'unexpected result value {v!r}')
 
 
-def run_py(text, mod_name, prog, inp):
+def run_py(text, mod_name, prog, inp, invert=False):
     """execute the generated module on one input set; result in the structure of fir.interp"""
     ns = {}
     try:
@@ -722,9 +735,11 @@ def run_py(text, mod_name, prog, inp):
         return ('error', f'generated Python does not compile: {e}')
     args, names, rets, shapes = np_inputs(prog, inp)
     import numpy as np
+    # invert_indices: the function indexes row-major, i.e. it expects the transposed view of the Fortran array
+    call_args = [a.T if invert and isinstance(a, np.ndarray) else a for a in args]
     with np.errstate(all='ignore'):
         try:
-            out = ns[mod_name](*args)
+            out = ns[mod_name](*call_args)
         except Exception as e:     # noqa: the generated code may raise anything
             return ('error', f'{type(e).__name__}: {e}')
     if len(rets) == 1 and not isinstance(out, tuple):
@@ -777,3 +792,626 @@ def compare_py(ref, got, prog):
                 if kind != 'logical' or bx != a:
                     return f'final value of logical {x}[{k}]: Fortran {a}, Python {b!r}'
     return None
+
+
+# ====================================================================== expression family (real PyCodeMapper on Loki trees)
+
+from ..feval import feval, EvalError, tdiv, same_value     # noqa: E402
+from .. import exprs as X                                   # noqa: E402
+
+
+def pyprint(tree):
+    from loki.backend.pygen import PyCodeMapper
+    return PyCodeMapper()(tree)
+
+
+_PYOPS = {'+': 'plus', '-': 'minus', '*': 'star', '/': 'slash', '**': 'dstar', '(': 'lp', ')': 'rp',
+          '==': 'eq', '!=': 'ne', '<': 'lt', '<=': 'le', '>': 'gt', '>=': 'ge'}
+_PYNAMES = {'True': 'tru', 'False': 'fls', 'not': 'not', 'and': 'and', 'or': 'or'}
+
+
+def pytokenize(text):
+    """Python tokens of an expression text as the wire atoms of the Lean type `PTok` (CPython's own tokeniser)"""
+    import io
+    import tokenize
+    out = []
+    for t in tokenize.generate_tokens(io.StringIO(text).readline):
+        if t.type in (tokenize.NEWLINE, tokenize.NL, tokenize.ENDMARKER):
+            continue
+        if t.type == tokenize.NUMBER:
+            if t.string.isdigit():
+                out.append(A(f'num:{int(t.string)}'))
+            else:
+                out.append([A('rnum'), t.string])
+        elif t.type == tokenize.NAME:
+            out.append(A(_PYNAMES[t.string]) if t.string in _PYNAMES else [A('id'), t.string])
+        elif t.type == tokenize.OP and t.string in _PYOPS:
+            out.append(A(_PYOPS[t.string]))
+        else:
+            raise ValueError(f'unexpected Python token {t.string!r}')
+    return out
+
+
+def den_text(x):
+    """fully parenthesised Python text of the meaning tree `den t` of an E tree (mirror of Lean `den`: n-ary nodes fold left,
+    a negative constant is the negation of its magnitude) — written by the harness, independent of pygen"""
+    k = str(x[0])
+    if k in ('ilit', 'pyint'):
+        n = int(str(x[1]))
+        return f'(-({-n}))' if n < 0 else f'({n})'
+    if k == 'rlit':
+        return f'({str(x[1])})'
+    if k == 'blit':
+        return '(True)' if str(x[1]) == 'true' else '(False)'
+    if k == 'var':
+        return str(x[1]).lower()
+    if k in ('sum', 'prod', 'land', 'lor'):
+        kids = x[2:] if k in ('sum', 'prod') else x[1:]
+        op = {'sum': '+', 'prod': '*', 'land': 'and', 'lor': 'or'}[k]
+        acc = den_text(kids[0])
+        for c in kids[1:]:
+            acc = f'({acc} {op} {den_text(c)})'
+        return acc
+    if k == 'quot':
+        return f'({den_text(x[2])} / {den_text(x[3])})'
+    if k == 'pow':
+        return f'({den_text(x[2])} ** {den_text(x[3])})'
+    if k == 'cmp':
+        return f'({den_text(x[2])} {X.CMP_INV[str(x[1])]} {den_text(x[3])})'
+    if k == 'lnot':
+        return f'(not {den_text(x[1])})'
+    raise ValueError(k)
+
+
+def py_shadow(x, env):
+    """Python mirror of Lean `evalPy ∘ den` with exact rationals: value ('i', n) | ('r', q) | ('b', v); raises EvalError"""
+    k = str(x[0])
+    num = lambda v: v[1] if v[0] in 'ir' else (_ for _ in ()).throw(EvalError('bool operand'))
+    if k in ('ilit', 'pyint'):
+        return ('i', int(str(x[1])))
+    if k == 'rlit':
+        return ('r', Fraction(str(x[1])))
+    if k == 'blit':
+        return ('b', str(x[1]) == 'true')
+    if k == 'var':
+        v = env[str(x[1]).lower()]
+        return ('b', v) if isinstance(v, bool) else ('i', v) if isinstance(v, int) else ('r', Fraction(v))
+    if k in ('sum', 'prod'):
+        kids = [py_shadow(c, env) for c in x[2:]]
+        acc = kids[0]
+        num(acc)
+        for c in kids[1:]:
+            t = 'i' if acc[0] == 'i' and c[0] == 'i' else 'r'
+            acc = (t, num(acc) + num(c) if k == 'sum' else num(acc) * num(c))
+        return acc
+    if k == 'quot':
+        a, b = py_shadow(x[2], env), py_shadow(x[3], env)
+        if num(b) == 0:
+            raise EvalError('division by zero')
+        return ('r', Fraction(num(a)) / Fraction(num(b)))
+    if k == 'pow':
+        a, b = py_shadow(x[2], env), py_shadow(x[3], env)
+        if b[0] != 'i' or a[0] == 'b':
+            raise EvalError('pow operand')
+        if b[1] >= 0:
+            if b[1] > 64:
+                raise EvalError('big exponent')
+            return (a[0], a[1] ** b[1])
+        if a[1] == 0:
+            raise EvalError('zero to negative power')
+        return ('r', 1 / Fraction(a[1]) ** (-b[1]))
+    if k == 'cmp':
+        a, b = num(py_shadow(x[2], env)), num(py_shadow(x[3], env))
+        op = str(x[1])
+        return ('b', {'eq': a == b, 'ne': a != b, 'lt': a < b, 'le': a <= b, 'gt': a > b, 'ge': a >= b}[op])
+    if k == 'lnot':
+        v = py_shadow(x[1], env)
+        if v[0] != 'b':
+            raise EvalError('not')
+        return ('b', not v[1])
+    if k in ('land', 'lor'):
+        kids = x[1:]
+        acc = py_shadow(kids[0], env)
+        for c in kids[1:]:
+            if acc[0] != 'b':
+                raise EvalError('logical')
+            if acc[1] == (k == 'lor'):
+                continue                      # short circuit: the right operand is not evaluated
+            acc = py_shadow(c, env)
+            if acc[0] != 'b':
+                raise EvalError('logical')
+        return acc
+    raise ValueError(k)
+
+
+def py_env(env):
+    """Python values of a valuation; names in both cases (the transformation lower-cases a routine before pygen sees it)"""
+    out = {}
+    for k, v in env.items():
+        out[k] = out[k.upper()] = v if isinstance(v, (bool, int)) else float(v)
+    return out
+
+
+def cpy_eval(text, env):
+    """CPython's value of an expression text: ('i', n) | ('r', Fraction) | ('b', v) | ('err', name)"""
+    try:
+        v = eval(compile(text, '<expr>', 'eval'), {'__builtins__': {}}, py_env(env))
+    except (ZeroDivisionError, OverflowError, TypeError) as e:
+        return ('err', type(e).__name__)
+    if isinstance(v, bool):
+        return ('b', v)
+    if isinstance(v, int):
+        return ('i', v)
+    if isinstance(v, float):
+        if v != v or v in (float('inf'), float('-inf')):
+            return ('err', 'nan')
+        return ('r', Fraction(v))
+    return ('err', type(v).__name__)
+
+
+def enc_tagged(v):
+    if v[0] == 'i':
+        return [A('i'), v[1]]
+    if v[0] == 'r':
+        return [A('r'), v[1].numerator, v[1].denominator]
+    if v[0] == 'b':
+        return [A('b'), bool(v[1])]
+    return A('err')
+
+
+def enc_fval(v):
+    if isinstance(v, bool):
+        return [A('b'), v]
+    if isinstance(v, int):
+        return [A('i'), v]
+    return [A('r'), Fraction(v).numerator, Fraction(v).denominator]
+
+
+def dec_env(vars_):
+    env = {}
+    for row in vars_:
+        if not isinstance(row, list) or len(row) != 2:
+            raise ValueError('malformed env')
+        env[str(row[0]).lower()] = fir.decode_val(row[1])
+    return env
+
+
+def enc_env(env):
+    return [[A(k), fir.encode_val(v)] for k, v in sorted(env.items())]
+
+
+def rlits(x):
+    out = []
+    if isinstance(x, list) and x:
+        if str(x[0]) == 'rlit':
+            out.append(str(x[1]))
+        for c in x[1:]:
+            out.extend(rlits(c))
+    return out
+
+
+def subtrees(x):
+    if isinstance(x, list) and x and not isinstance(x[0], list):
+        yield x
+        for c in x[1:]:
+            if isinstance(c, list):
+                yield from subtrees(c)
+
+
+def known_expr(x, env):
+    """Python mirror of Lean `KnownPyExpr env (den t)` → class name or None"""
+    for s in subtrees(x):
+        k = str(s[0])
+        if k in ('quot', 'pow'):
+            try:
+                a = feval(X.from_sexp(s[2], X.VARTYPES), env)
+                b = feval(X.from_sexp(s[3], X.VARTYPES), env)
+            except (EvalError, ZeroDivisionError):
+                continue
+            ai = isinstance(a, int) and not isinstance(a, bool)
+            bi = isinstance(b, int) and not isinstance(b, bool)
+            if k == 'quot' and ai and bi:
+                return 'py-integer-quotient'
+            if k == 'pow' and ai and bi and b < 0:
+                return 'py-negative-int-power'
+    return None
+
+
+def ast_sem(node):
+    """semantic tuple tree (the `S` of harness/exprs.py) of a CPython AST"""
+    if isinstance(node, ast.Expression):
+        return ast_sem(node.body)
+    if isinstance(node, ast.Constant):
+        v = node.value
+        if isinstance(v, bool):
+            return ('bool', v)
+        if isinstance(v, int):
+            return ('int', v)
+        if isinstance(v, float):
+            return ('real', repr(v))
+        raise ValueError('constant')
+    if isinstance(node, ast.Name):
+        return ('var', node.id.lower())
+    if isinstance(node, ast.UnaryOp):
+        if isinstance(node.op, ast.USub):
+            return ('neg', ast_sem(node.operand))
+        if isinstance(node.op, ast.Not):
+            return ('not', ast_sem(node.operand))
+        raise ValueError('unary')
+    if isinstance(node, ast.BinOp):
+        op = {ast.Add: 'add', ast.Sub: 'sub', ast.Mult: 'mul', ast.Div: 'div', ast.Pow: 'pow'}[type(node.op)]
+        return (op, ast_sem(node.left), ast_sem(node.right))
+    if isinstance(node, ast.BoolOp):
+        op = 'and' if isinstance(node.op, ast.And) else 'or'
+        acc = ast_sem(node.values[0])
+        for v in node.values[1:]:
+            acc = (op, acc, ast_sem(v))
+        return acc
+    if isinstance(node, ast.Compare):
+        if len(node.ops) != 1:
+            raise ValueError('chained comparison')
+        op = {ast.Eq: 'eq', ast.NotEq: 'ne', ast.Lt: 'lt', ast.LtE: 'le', ast.Gt: 'gt', ast.GtE: 'ge'}[type(node.ops[0])]
+        return ('cmp', op, ast_sem(node.left), ast_sem(node.comparators[0]))
+    raise ValueError(type(node).__name__)
+
+
+def expr_shape_class(x):
+    """classes of *programmatic* tree shapes (the frontend never builds them) that pygen prints with another meaning"""
+    for s in subtrees(x):
+        k = str(s[0])
+        if k == 'pow' and str(s[2][0]) == 'pow' and str(s[2][1]) == 'false':
+            return 'py-power-of-power'
+        if k == 'pow' and str(s[2][0]) == 'ilit' and int(str(s[2][1])) < 0:
+            return 'py-negative-literal-base'
+    return None
+
+
+def variants(env, n=2):
+    """deterministic further valuations for the syntactic comparison"""
+    rng = _random.Random(repr(sorted(env.items())))
+    return [env] + [X.gen_valuation(rng) for _ in range(n)]
+
+
+# ====================================================================== loop header family
+
+def loop_header_range(s, e, st):
+    """the `range(…)` text `PyCodegen.visit_Loop` prints for literal bounds"""
+    from loki.backend.pygen import pygen
+    from loki.expression import symbols as sym
+    from loki.ir import Loop
+    lit = lambda n: sym.IntLiteral(n) if n >= 0 else sym.Product((-1, sym.IntLiteral(-n)))
+    bounds = sym.LoopRange((lit(s), lit(e), None if st is None else lit(st)))
+    text = pygen(Loop(variable=X.var('i'), bounds=bounds, body=()))
+    head = text.splitlines()[0].strip()
+    if not (head.startswith('for i in ') and head.endswith(':')):
+        raise ValueError(f'unexpected loop header {head!r}')
+    return head[len('for i in '):-1]
+
+
+def fortran_do(s, e, st):
+    n = max(0, tdiv(e - s + st, st))
+    return [s + k * st for k in range(n)]
+
+
+# ====================================================================== the property
+
+def gen_tables():
+    import pymbolic.primitives as pmbl
+    from loki.backend.pygen import PyCodeMapper
+    from loki.expression import symbols as sym
+    import re
+    mp = PyCodeMapper.multiplicative_primitives
+    b = lambda v: 'true' if v else 'false'
+    src = (Path(os.environ.get('LOKI_REPO', '/repo')) / 'loki/transformations/transpile/fortran_python.py').read_text()
+    m = re.search(r'intrinsic_map\s*=\s*(\{.*?\})', src, re.S)
+    imap = ast.literal_eval(m.group(1)) if m else {}
+    pairs = ', '.join(f'("{k}", "{v}")' for k, v in imap.items())
+    return '\n'.join([
+        '/-! GENERATED by harness/props/c36.py from /repo and pymbolic — do not edit. -/',
+        'namespace LokiModel.C36.Tables',
+        '/-- is `Product` / `Quotient` in `PyCodeMapper.multiplicative_primitives` (forces parentheses around a denominator of that class) -/',
+        f'def pyMpProduct : Bool := {b(any(issubclass(sym.Product, c) for c in mp))}',
+        f'def pyMpQuotient : Bool := {b(any(issubclass(sym.Quotient, c) for c in mp))}',
+        "/-- `FortranPythonTransformation`'s intrinsic_map (Fortran name, Python name) -/",
+        f'def intrinsicMap : List (String × String) := [{pairs}]',
+        'end LokiModel.C36.Tables']) + '\n'
+
+
+CLASS_CFGS = [
+    ('py-integer-quotient', dict(p_intdiv=0.25)),
+    ('py-unmapped-intrinsic', dict(p_mod=0.15)),
+    ('py-unmapped-intrinsic', dict(p_int=0.15)),
+    ('py-loop-step', dict(p_step=0.7)),
+    ('py-lower-bound', dict(p_lower=0.5)),
+    ('py-real-to-int-scalar', dict(p_r2i=0.5)),
+    ('py-negative-int-power', dict(p_negpow=0.15)),
+    ('py-nested-subscript', dict(p_nested=0.5)),
+    ('py-long-line', dict(p_long=1.0, expr_depth=5)),
+]
+
+
+class C36(Prop):
+    id = 'C36'
+    title = 'Fortran-to-Python transpilation preserves behaviour'
+    model_modules = ['LokiModel.C36.Model']
+    props_module = 'LokiModel.Props.C36'
+    findings_module = 'LokiModel.Findings.C36'
+    driver = 'Drivers/C36.lean'
+    theorems = ['py_eval_eq_S', 'py_eval_eq_partial', 'py_int_quotient_differs', 'pyrange_eq_doSeq_nostep',
+                'pyrange_eq_doSeq_divisible', 'pyrange_eq_doSeq_unit', 'pyrange_eq_doSeq_partial', 'py_index_shift']
+    design_ref = 'DESIGN.md 4.F C36'
+    level = 'proof'
+    level_text = (
+        'Theorems (Lean kernel, all trees / valuations / integers): py_eval_eq_partial — for every meaning tree and valuation outside '
+        'the two decidable expression classes (integer/integer quotient, integer to a negative integer power) CPython\'s value of the '
+        'tree (true division, float results, short-circuit and/or) is the Fortran value; py_int_quotient_differs — inside the first '
+        'class the values always differ; pyrange_eq_doSeq_nostep/_unit/_divisible — the range(s, e+st, st) header printed by '
+        'PyCodegen.visit_Loop visits the DO sequence for absent step, step ±1 and every step dividing e-s (other steps: class '
+        'py-loop-step, decidable, witness in Findings); py_index_shift — the generated subscript i-1 is the 0-based position iff the '
+        'declared lower bound is 1. _partial because the step "the text pygen prints is read by Python as that tree" is not proved: '
+        'the Lean printer model printPy is compared token for token with the real PyCodeMapper and CPython\'s own parser (ast) reads '
+        'every printed text back on every run. Whole routines (statements, declarations, argument passing) are covered by the direct '
+        'oracle only: the really generated Python module is executed and compared with the reference interpreter (which is compared '
+        'with the Lean FIR semantics on the same programs, and with gfortran in the thorough tier).')
+    level_note = ('No Lean model of FortranPythonTransformation at statement level (declarations, numpy array creation, argument/return '
+                  'convention, line wrapping): oracle only. Floats are exact rationals in model and oracle; generated inputs are dyadic '
+                  'and the generator keeps every intermediate exact, so rounding never decides a comparison. with_dace is not covered.')
+    technique = ('Lean 4 theorems about a hand-written expression/loop-header model + token correspondence with the real PyCodeMapper '
+                 '+ execution of the really generated Python modules against an independent interpreter')
+    rule = ('prog: routines from a type-directed generator of the transpilable subset (scalars, arrays rank 1-3, DO, DO WHILE, IF/ELSE IF, '
+            'MIN MAX ABS REAL, mixed mode), 3 dyadic input sets each, plain and invert_indices; per known class a biased configuration; '
+            'expr: random Loki trees (frontend shaped and programmatic) with valuations, kept when every intermediate is exact; '
+            'range: all (s,e,st) of a box; non-trivial = outside every known class; distinct by request line')
+    trusted_base = ['harness/fir.py reference interpreter (compared with Lean Fir.Sem and gfortran on the same programs)',
+                    'harness/feval.py', 'CPython (exec of the generated module, ast, tokenize)', 'numpy']
+    assumptions = ['reals are exact rationals; integer overflow is not modelled (generated values stay below 2^28)',
+                   'the generated function is called like the Loki tests call it: Python int/float/bool scalars, Fortran-ordered numpy arrays '
+                   '(int32 / float64), scalar intent(out) dummies are returned']
+    extra_obligations = ['oracle: generated Python module vs reference interpreter on every input set',
+                         'CPython ast of every printed expression has the Fortran value of the tree',
+                         'reference interpreter vs Lean FIR semantics on every generated routine',
+                         'reference interpreter vs gfortran (thorough tier)']
+
+    def tables(self):
+        return {'LokiModel/Generated/C36Tables.lean': gen_tables()}
+
+    def classes(self):
+        return sorted({c for c, _ in PROG_CLASSES} | {'py-power-of-power', 'py-negative-literal-base'})
+
+    # ---------------------------------------------------------------- generation
+    def gen(self, rng, tier):
+        self._tier = tier
+        n_prog = {'quick': 36, 'thorough': 400, 'search': 150}.get(tier, 36)
+        n_cls = {'quick': 1, 'thorough': 8, 'search': 3}.get(tier, 1)
+        n_expr = {'quick': 250, 'thorough': 3000, 'search': 1000}.get(tier, 250)
+        R = {'quick': 4, 'thorough': 8, 'search': 6}.get(tier, 4)
+        for k in range(n_prog):
+            prog, inputs = gen_routine(rng)
+            mode = 'invert' if k % 4 == 3 else 'plain'
+            cls = classify_prog(prog)
+            yield Case([A('prog'), A(mode), prog] + inputs, stream='prog-' + mode, nontrivial=cls is None)
+        for cls, cfg in CLASS_CFGS:
+            done = 0
+            for _ in range(n_cls * 12):
+                if done >= n_cls:
+                    break
+                prog, inputs = gen_routine(rng, cfg)
+                if classify_prog(prog) != cls:
+                    continue
+                done += 1
+                yield Case([A('prog'), A('plain'), prog] + inputs, stream='prog-class', nontrivial=False)
+        made = 0
+        attempts = 0
+        while made < n_expr and attempts < n_expr * 6:
+            attempts += 1
+            r = rng.random()
+            programmatic = rng.random() < 0.25
+            if r < 0.35:
+                x = X.gen_arith(rng, rng.randint(1, 4), 'real', programmatic)
+            elif r < 0.6:
+                x = X.gen_arith(rng, rng.randint(1, 4), 'int', programmatic)
+            else:
+                x = X.gen_logical(rng, rng.randint(1, 3), programmatic)
+            x = loads(dumps(x))
+            env = X.gen_valuation(rng)
+            cls = known_expr(x, env)
+            if cls is not None and rng.random() < 0.8:
+                continue                                    # keep most cases outside the classes
+            try:
+                sh = py_shadow(x, env)
+            except EvalError:
+                sh = ('err',)
+            cp = cpy_eval(den_text(x), env)
+            if sh[0] == 'err' and cp[0] == 'err':
+                pass
+            elif sh != cp:
+                continue                                    # an intermediate float is not exact: not comparable with the rational model
+            made += 1
+            yield Case([A('expr'), x, enc_env(env), [[t, Fraction(t).numerator, Fraction(t).denominator] for t in sorted(set(rlits(x)))]],
+                       stream='expr-prog' if programmatic else 'expr',
+                       nontrivial=cls is None and sh[0] != 'err' and expr_shape_class(x) is None)
+        for s in range(-R, R + 1):
+            for e in range(-R, R + 1):
+                for st in [None] + [c for c in range(-R, R + 1) if c != 0]:
+                    ref = fortran_do(s, e, 1 if st is None else st)
+                    yield Case([A('range'), s, e, A('none') if st is None else st], stream='range', nontrivial=bool(ref))
+
+    # ---------------------------------------------------------------- decoding
+    @staticmethod
+    def dec_prog(req):
+        if len(req) < 4 or str(req[1]) not in ('plain', 'invert'):
+            raise ValueError('malformed prog request')
+        prog, inputs = req[2], req[3:]
+        if h(prog) != 'program' or not all(isinstance(i, list) for i in inputs):
+            raise ValueError('malformed prog request')
+        unit_of(prog)[4]
+        return str(req[1]) == 'invert', prog, inputs
+
+    @staticmethod
+    def dec_expr(req):
+        if len(req) != 4:
+            raise ValueError('malformed expr request')
+        x = req[1]
+        X.from_sexp(x, X.VARTYPES)
+        return x, dec_env(req[2])
+
+    # ---------------------------------------------------------------- real code → canonical response
+    def impl(self, req):
+        op = str(req[0])
+        if op == 'prog':
+            _, prog, inputs = self.dec_prog(req)
+            return [A('ok')] + [fir.result_to_sexp(fir.interp(prog, inp)) for inp in inputs]
+        if op == 'expr':
+            x, env = self.dec_expr(req)
+            tree = X.from_sexp(x, X.VARTYPES)
+            toks = pytokenize(pyprint(tree))
+            try:
+                fv = enc_fval(feval(tree, env))
+            except (EvalError, ZeroDivisionError):
+                fv = A('err')
+            return [A('ok'), [A('tok')] + toks, [A('py'), enc_tagged(cpy_eval(den_text(x), env))], [A('f'), fv],
+                    [A('known'), known_expr(x, env) is not None]]
+        if op == 'range':
+            s, e = int(str(req[1])), int(str(req[2]))
+            st = None if str(req[3]) == 'none' else int(str(req[3]))
+            try:
+                return [A('ok')] + list(eval(loop_header_range(s, e, st), {'range': range}))
+            except ValueError:
+                return [A('error'), A('valueerror')]
+        raise ValueError(op)
+
+    # ---------------------------------------------------------------- direct oracle
+    def oracle(self, req):
+        op = str(req[0])
+        if op == 'prog':
+            return self.oracle_prog(req)
+        if op == 'expr':
+            return self.oracle_expr(req)
+        if op == 'range':
+            s, e = int(str(req[1])), int(str(req[2]))
+            st = None if str(req[3]) == 'none' else int(str(req[3]))
+            got = list(eval(loop_header_range(s, e, st), {'range': range}))
+            ref = fortran_do(s, e, 1 if st is None else st)
+            if got != ref:
+                cls = 'py-loop-step' if st is not None and abs(st) >= 2 and (e - s) % st != 0 else None
+                return [Failure(f'DO i = {s}, {e}, {st} visits {ref}; the generated {loop_header_range(s, e, st)} visits {got}', cls)]
+            return []
+        raise ValueError(op)
+
+    def oracle_prog(self, req):
+        invert, prog, inputs = self.dec_prog(req)
+        cls = classify_prog(prog)
+        try:
+            text, mod = transpile_py(prog, invert)
+        except Exception as e:      # noqa: anything the transformation raises is a failure of the property
+            return [Failure(f'FortranPythonTransformation raised {type(e).__name__}: {str(e)[:160]}', cls)]
+        for k, inp in enumerate(inputs):
+            stats = {}
+            ref = fir.interp(prog, inp, stats=stats)
+            if ref[0] != 'ok' or not fir.exact_in_hardware(stats):
+                continue
+            if any(v is None for x, vs in ref[1].items() if len(vs) == 1 for v in vs):
+                continue            # a scalar dummy is left undefined (only in shrunk requests): nothing to compare
+            got = run_py(text, mod, prog, inp, invert)
+            d = compare_py(ref, got, prog)
+            if d:
+                return [Failure(f'input set {k}: {d}', cls)]
+        return []
+
+    def oracle_expr(self, req):
+        x, env = self.dec_expr(req)
+        tree = X.from_sexp(x, X.VARTYPES)
+        text = pyprint(tree)
+        # (a) the text, as CPython parses and evaluates it, has the value of the fully parenthesised meaning tree (Python
+        # semantics on both sides: only the parenthesisation is judged here)
+        try:
+            compile(text, '<expr>', 'eval')
+        except SyntaxError as e:
+            return [Failure(f'pygen text {text!r} is not a Python expression: {e}', expr_shape_class(x))]
+        canon = den_text(x)
+        for ev in variants(env):
+            want, got = cpy_eval(canon, ev), cpy_eval(text, ev)
+            if want[0] == 'err':
+                continue
+            same = want == got or (want[0] == got[0] == 'r' and abs(want[1] - got[1]) <= abs(want[1]) * Fraction(1, 10 ** 9))
+            if not same:
+                return [Failure(f'{text!r} has Python value {got}, the meaning tree {canon!r} has {want} under {ev}',
+                                expr_shape_class(x))]
+        # (b) CPython's value of the text vs the Fortran value
+        try:
+            want = feval(tree, env)
+        except (EvalError, ZeroDivisionError):
+            return []
+        got = cpy_eval(text, env)
+        wt = ('b', want) if isinstance(want, bool) else ('i', want) if isinstance(want, int) else ('r', Fraction(want))
+        ok = got == wt
+        if not ok and got[0] == 'r' and wt[0] == 'r':
+            ok = abs(got[1] - wt[1]) <= abs(wt[1]) * Fraction(1, 10 ** 12)       # inexact intermediates (replayed / shrunk requests)
+        if not ok:
+            return [Failure(f'{text!r}: Python gives {got}, Fortran {wt} under {env}', known_expr(x, env))]
+        return []
+
+    def shrink_candidates(self, req):
+        if str(req[0]) == 'expr':
+            for y in X.shrink_E(req[1]):
+                yield [req[0], y, req[2], [[t, Fraction(t).numerator, Fraction(t).denominator] for t in sorted(set(rlits(y)))]]
+        elif str(req[0]) == 'prog':
+            yield from shrink_prog(req)
+
+    # ---------------------------------------------------------------- cross-checks
+    def post(self, cases, impl_out, model_raw, oracle_fail):
+        problems, cov = [], {}
+        failed = {c.line for c, f in oracle_fail if not f.error}
+        # a tree outside the expression classes with a Fortran value must pass the oracle (theorem domain vs oracle)
+        n_dom = 0
+        for c in cases:
+            if str(c.req[0]) == 'expr' and c.stream == 'expr' and c.nontrivial:
+                n_dom += 1
+                if c.line in failed:
+                    problems.append(f'a frontend-shaped tree outside the classes fails the oracle: {c.line[:200]}')
+        cov['expr_in_theorem_domain_passing'] = n_dom
+        progs = [c for c in cases if str(c.req[0]) == 'prog']
+        cov['routines'] = len(progs)
+        cov['routines_outside_classes'] = sum(1 for c in progs if c.nontrivial)
+        if getattr(self, '_tier', 'quick') == 'thorough' and progs and os.path.exists(fir.GFORTRAN):
+            items = []
+            for c in progs:
+                _, prog, inputs = self.dec_prog(c.req)
+                items.append((prog, inputs[0]))
+            res = fir.run_gfortran(items)
+            bad = 0
+            for (prog, inp), r in zip(items, res):
+                stats = {}
+                ref = fir.interp(prog, inp, stats=stats)
+                if fir.exact_in_hardware(stats) and fir.compare_results(ref, r) is not None:
+                    bad += 1
+                    problems.append('reference interpreter and gfortran disagree: ' + str(fir.compare_results(ref, r))[:200])
+            cov['gfortran_agreements'] = len(items) - bad
+        return problems[:5], cov
+
+
+def shrink_prog(req):
+    """structure-preserving smaller routines: drop one statement of a body (any depth), drop input sets"""
+    head, prog, inputs = req[:2], req[2], req[3:]
+    if len(inputs) > 1:
+        for k in range(len(inputs)):
+            yield head + [prog] + inputs[:k] + inputs[k + 1:]
+    u = prog[2]
+
+    def drops(stmts):
+        for k in range(len(stmts)):
+            yield stmts[:k] + stmts[k + 1:]
+            s = stmts[k]
+            kind = h(s)
+            slots = {'do': [5], 'while': [2], 'if': [2, 3]}.get(kind, [])
+            for j in slots:
+                for v in drops(s[j]):
+                    yield stmts[:k] + [s[:j] + [v] + s[j + 1:]] + stmts[k + 1:]
+                if kind == 'if' and s[j]:
+                    yield stmts[:k] + s[j] + stmts[k + 1:]
+    for body in drops(u[4]):
+        yield head + [[prog[0], prog[1], u[:4] + [body]]] + inputs
+
+
+PROP = C36()
+READY = True
